@@ -56,6 +56,7 @@ pub fn profile_for(prop: &str) -> Profile {
             ..base
         },
         "C03" => Profile {
+            market_share: 0.15,
             property: "C03",
             monitors: LEDGER,
             w: [28, 26, 5, 6, 8, 14, 4, 22, 4, 3, 0, 0],
@@ -65,6 +66,7 @@ pub fn profile_for(prop: &str) -> Profile {
             ..base
         },
         "C04" => Profile {
+            market_share: 0.15,
             property: "C04",
             monitors: LIFECYCLE | NOOP,
             discipline: false,
@@ -87,6 +89,7 @@ pub fn profile_for(prop: &str) -> Profile {
             ..base
         },
         "C06" => Profile {
+            market_share: 0.15,
             property: "C06",
             monitors: MODEL | MODIFY_INV,
             w: [34, 16, 3, 5, 6, 30, 6, 24, 0, 0, 0, 0],
